@@ -67,8 +67,17 @@ pub fn det(a: &QMat) -> Q {
     }
     det
 }
+/// Euclidean norm that neither overflows nor underflows while squaring (scaled by the largest entry)
+pub fn norm2(v: &[f64]) -> f64 {
+    let m = v.iter().fold(0.0f64, |a, x| a.max(x.abs()));
+    if m == 0.0 || !m.is_finite() {
+        return m;
+    }
+    m * v.iter().map(|x| (x / m) * (x / m)).sum::<f64>().sqrt()
+}
 pub fn fro(a: &QMat) -> f64 {
-    a.iter().flatten().map(|x| { let f = qf(&x.abs()); f * f }).sum::<f64>().sqrt()
+    let v: Vec<f64> = a.iter().flatten().map(|x| qf(&x.abs())).collect();
+    norm2(&v)
 }
 pub fn matmul(a: &QMat, b: &QMat) -> QMat {
     let n = a.len();
@@ -116,5 +125,5 @@ pub fn is_spd(a: &QMat) -> bool {
 pub fn l21(a: &QMat) -> f64 {
     let n = a.len();
     let m = a[0].len();
-    (0..m).map(|j| (0..n).map(|i| { let f = qf(&a[i][j]); f * f }).sum::<f64>().sqrt()).sum()
+    (0..m).map(|j| norm2(&(0..n).map(|i| qf(&a[i][j])).collect::<Vec<_>>())).sum()
 }
